@@ -3,7 +3,7 @@ EXTENDS Bridge, Json, IOUtils, SequencesExt
 CONSTANTS MaxMsgs, Profs
 SubMsgs == [kind : MsgKinds, prof : 1..Profs]
 MsgSeqs == UNION {[1..n -> SubMsgs] : n \in 0..MaxMsgs}
-Responses == [msgs : MsgSeqs, attrs : {0, 2}, events : {0, 2}, data : BOOLEAN]
+Responses == [msgs : MsgSeqs, attrs : {0, 2}, events : {0, 2}, data : DataShapes]
 Init == resp \in Responses /\ stage = "returned" /\ result = Pending
 Next == DoBridge
 Spec == Init /\ [][Next]_bvars
